@@ -24,7 +24,7 @@
    pv_trim, equivalently clause by clause under BddPartialValuation::eq (pv_eq). *)
 From Coq Require Import List NArith Bool. Import ListNotations.
 From BddVerif Require Import Model.Bdd Model.Apply Model.Ops Model.Paths Model.Valuation Model.Dnf Model.OptDnf Proofs.Sem Proofs.Canon
-  Proofs.Reflect Proofs.PvalSem Proofs.NormalForms Proofs.Paths Proofs.DnfSem Proofs.OptDnfSem.
+  Proofs.Reflect Proofs.PvalSem Proofs.NormalForms Proofs.Paths Proofs.DnfSem Proofs.OptDnfSem Model.Alias.
 Open Scope N_scope.
 
 (* clause_sat v c: v satisfies the conjunction of the literals of c;  dclause_sat v c: their disjunction *)
@@ -256,3 +256,9 @@ Example C10_optimized_dnf_example :
   mk_dnf 4 [[None; Some true; Some true]; [Some true; Some false; Some true]; [Some false; Some true; Some false]] = Ok ex10.
 Proof. exact opt_dnf_example. Qed.
 Print Assumptions C10_optimized_dnf_example.
+
+(* _to_optimized_dnf with an interrupt that never fails (Model/Alias.v) is to_optimized_dnf: same round trip *)
+Theorem C10_optimized_dnf_uninterrupted_roundtrip : forall b, Canonical b ->
+  exists cs, to_optimized_dnf_uninterrupted b = Ok cs /\ mk_dnf (nvars b) cs = Ok b.
+Proof. exact optimized_dnf_roundtrip. Qed.
+Print Assumptions C10_optimized_dnf_uninterrupted_roundtrip.
